@@ -31,8 +31,9 @@ def swapcase_component(u, which):
 
 def bases():
     out = []
-    for host in ("example.com", "blog.example.com", "shop.blog.example.co.uk", "facebook.com", "youtube.com", "télérama.fr"):
-        for tail in ("", "/Some/Path", "/a/b.html?id=1&Q=Abc", "/watch?v=abcdefghijk", "/a?x=1#/Route/1"):
+    # incl. hosts that are a bare public suffix, that already start with a country-code-like label, and an escaped upper-case query key
+    for host in ("example.com", "blog.example.com", "shop.blog.example.co.uk", "facebook.com", "youtube.com", "télérama.fr", "co.uk", "blogspot.com", "bo.nordland.no"):
+        for tail in ("", "/Some/Path", "/a/b.html?id=1&Q=Abc", "/watch?v=abcdefghijk", "/a?x=1#/Route/1", "/p?%4A=1&b=2"):
             out.append((host, tail))
     return out
 
